@@ -36,6 +36,8 @@ KEYS = {
     "c_num": ("Num", ("c", "Num")), "c_ka1": ("ka1", ("c", "KA#1")), "c_ka2": ("ka2", ("c", "KA#2")),
     "c_vec": ("Vec", ("c", "Vec")),
     "r_a": ("rga", ("r", "rga", 0, 3)), "r_b": ("rgb", ("r", "rgb", 0, 4)),
+    "t_range": ("(rga, 1)", ("t", [("r", "rga", 0, 3), ("n", 1.0)])), "t_range_c": ("(rga, 2 - 1)", ("t", [("r", "rga", 0, 3), ("n", 1.0)])),
+    "t_range_nest": ('(0, (rgb, "x"))', ("t", [("n", 0.0), ("t", [("r", "rgb", 0, 4), ("s", "x")])])),
     "t_class": ("(ka1, 1)", ("t", [("c", "KA#1"), ("n", 1.0)])), "t_class2": ("(ka2, 1)", ("t", [("c", "KA#2"), ("n", 1.0)])),
 }
 # tuples held in a variable: every use offers the *same object* as key
@@ -159,7 +161,7 @@ def gen_ir(seed):
     pool = [k for k in names if rng.chance(0.35)]
     groups = [["one", "one_f", "one_c"], ["zero", "negzero", "negzero_c"], ["s_ab", "s_ab_c", "s_ab_i", "s_ab_sl"],
               ["t_a1", "t_a1_c"], ["t_nest", "t_nest_c"], ["t_zero", "t_negzero"], ["c_ka1", "c_ka2"], ["t_class", "t_class2"],
-              ["nan", "t_nan", "tv_nan"], ["r_a", "r_b"], ["s_1", "one"], ["tv_a1", "t_a1"], ["tv_nest", "t_nest"]]
+              ["nan", "t_nan", "tv_nan"], ["r_a", "r_b"], ["s_1", "one"], ["tv_a1", "t_a1"], ["tv_nest", "t_nest"], ["t_range", "t_range_c", "t_range_nest", "r_a"]]
     for g in groups:
         if rng.chance(0.4):
             pool += g
@@ -393,7 +395,7 @@ class C12:
     LEVEL = "exploration"
     TIMEOUT = 30.0
     RULE = ("case = generated operation history (8-80 ops: literal construction with duplicate/unhashable keys, insert, remove, get, "
-            "has_key, clear, len, keys, values, items) on 1-3 maps over a per-history sub-pool of a 44-key catalogue in which equal "
+            "has_key, clear, len, keys, values, items) on 1-3 maps over a per-history sub-pool of a 47-key catalogue in which equal "
             "keys are built differently (1, 1.0, 2-1; 0, -0, 0*-1; \"ab\" literal / concatenated / interpolated / sliced; equal tuples "
             "and nested tuples built separately; tuples of classes; two distinct classes with one name; ranges; inf, NaN) plus 15 kinds of "
             "unhashable keys (fresh, variable-held, and the map itself / containers of it); literals with 120-255 entries; keys and values are referenced only by the map; each history runs under collect-at-every-allocation and "
